@@ -37,6 +37,8 @@ FLAVOURS = {
     "opt": {"cxx": ["-O2"] + BASE, "exc": False, "ld": []},
     # further configurations for C09's thorough tier: -O3, and another compiler (clang 14, library objects only; the harness needs g++ for __float128)
     "opt3": {"cxx": ["-O3"] + BASE, "exc": False, "ld": []},
+    # a release-style configuration: assertions compiled out
+    "ndebug": {"cxx": ["-O2", "-DNDEBUG"] + BASE, "exc": False, "ld": []},
     "clang": {"cxx": ["-O2"] + BASE, "exc": False, "ld": [], "cc": "clang++"},
     # clang 14's ASan+UBSan (its -fsanitize=undefined has checks g++ lacks, e.g. calls through a function pointer of the wrong type); harness built by clang too
     # (object-size is switched off: known false alarm of clang 14 on empty classes with zero-length arrays)
